@@ -29,10 +29,11 @@ type dagGate struct {
 	owner   map[string]int // cid key -> dag index
 	st      *store.Store
 	waiting int
+	parkedN map[int]int // reads currently parked, per dag index
 }
 
 func newDagGate(st *store.Store) *dagGate {
-	g := &dagGate{held: map[int]bool{}, owner: map[string]int{}, st: st}
+	g := &dagGate{held: map[int]bool{}, owner: map[string]int{}, st: st, parkedN: map[int]int{}}
 	g.cond = sync.NewCond(&g.mu)
 	st.BeforeRead = func(n int, lnk cid.Cid, path string) error {
 		g.mu.Lock()
@@ -40,9 +41,11 @@ func newDagGate(st *store.Store) *dagGate {
 		if ok && g.held[i] {
 			g.st.HeldAdd(1)
 			g.waiting++
+			g.parkedN[i]++
 			for g.held[i] {
 				g.cond.Wait()
 			}
+			g.parkedN[i]--
 			g.waiting--
 			g.st.HeldAdd(-1)
 		}
